@@ -292,6 +292,38 @@ class Ctx:
         }
 
 
+def run_repo_tests_under_contracts(ctx, tests=("tests/spectrum/test_spectrum.py",)):
+    """extra workload: the repository's own tests with the class-level contracts installed (pytest plugin);
+    the contract evaluations and failures observed there are merged into this shard's context"""
+    import subprocess
+    import tempfile
+    out = tempfile.mktemp(suffix=".json", dir=os.environ.get("VERIF_WORK", os.path.join(VERIF, ".work")))
+    env = dict(os.environ)
+    env["VMON_PLUGIN_OUT"] = out
+    env["VMON_PLUGIN_PROP"] = ctx.prop
+    cmd = [sys.executable, "-m", "pytest", "-q", "-p", "no:cacheprovider", "-p", "vmon.pytest_plugin", "--timeout=900",
+           *[os.path.join(REPO, t) for t in tests]]
+    subprocess.run(cmd, cwd=REPO, env=env, capture_output=True, text=True, timeout=1800)
+    if not os.path.exists(out):
+        ctx.note("repository tests under contracts: no report produced")
+        return
+    with open(out) as fh:
+        rep = json.load(fh)
+    os.remove(out)
+    for name, m in rep["monitors"].items():
+        t = ctx._mon(name)
+        t["evals"] += m["evals"]
+        t["fails"] += m["fails"]
+        t["worst"] = max(t["worst"], m["worst"])
+    for k, v in rep["violation_keys"].items():
+        ctx.violation_keys[k] = ctx.violation_keys.get(k, 0) + v
+    ctx.violations.extend(rep["violations"][:10])
+    for k, v in rep["counters"].items():
+        ctx.count("repo-tests:" + k, v)
+    ctx.reach.seen.update(rep.get("reach", []))
+    ctx.case(("repo-tests-under-contracts",), nontrivial=True)
+
+
 def guarded(ctx, monitor, fn, case=None, key=None):
     """Run fn(); an exception is a violation of monitor `monitor` ("returns without
     raising").  Returns (ok, value)."""
